@@ -129,6 +129,63 @@ def scenario_lock_timeout() -> dict[str, Any]:
     return {"nchunks": 1, "wire": wire, "cancelled": [[2, 1]], "expected": [[1, 1], [3, 1]], "meta": f"lock_timeout results={results} problems={problems} wire={wire[:6]}"}
 
 
+def scenario_accessor() -> dict[str, Any]:
+    """A is blocked in the middle of a big packet (the peer is idle), B waits for the send lock, and a third thread keeps using the
+    client's socket proxy (fileno, getsockopt, addresses) - which is built over the same lock.  Then the peer reads."""
+    from easynetwork.clients.tcp import TCPNetworkClient
+    from easynetwork.protocol import StreamProtocol
+
+    a, b = _loopback()
+    client = TCPNetworkClient(a, StreamProtocol(_serializer()), retry_interval=0.05)
+    BIG = 4 * 1024 * 1024
+    results: dict[str, Any] = {}
+    stop = threading.Event()
+
+    def send(name: str, packet: tuple[int, int, int]) -> None:
+        try:
+            client.send_packet(packet)
+            results[name] = "ok"
+        except BaseException as exc:  # noqa: BLE001
+            results[name] = f"error:{type(exc).__name__}:{exc}"
+
+    def accessor() -> None:
+        n = 0
+        try:
+            while not stop.is_set() and n < 2000:
+                n += 1
+                client.fileno()
+                client.socket.getsockopt(socket.SOL_SOCKET, socket.SO_SNDBUF)
+                client.get_local_address()
+                time.sleep(0.001)
+            results["accessor"] = "ok"
+        except BaseException as exc:  # noqa: BLE001
+            results["accessor"] = f"error:{type(exc).__name__}:{exc}"
+
+    ta = threading.Thread(target=send, args=("A", (1, 1, BIG)), daemon=True)
+    ta.start()
+    time.sleep(0.15)
+    tb = threading.Thread(target=send, args=("B", (2, 1, 10)), daemon=True)
+    tb.start()
+    tx = threading.Thread(target=accessor, daemon=True)
+    tx.start()
+    time.sleep(0.2)
+    expected_len = len(b"<1.1.%d:" % BIG) + BIG + 1 + len(b"<2.1.10:") + 10 + 1
+    data = _drain(b, lambda got: len(got) >= expected_len)
+    ta.join(10)
+    tb.join(10)
+    stop.set()
+    tx.join(10)
+    try:
+        client.close()
+    finally:
+        b.close()
+    wire = parse_wire(data)
+    problems = [f"{n}: {results.get(n)}" for n in ("A", "B", "accessor") if results.get(n) != "ok"]
+    if problems:
+        wire.append([0, 0, 0])
+    return {"nchunks": 1, "wire": wire, "cancelled": [], "expected": [[1, 1], [2, 1]], "meta": f"accessor results={results} problems={problems} wire={wire[:6]}"}
+
+
 def scenario_stress(nthreads: int, npkts: int, udp: bool = False) -> dict[str, Any]:
     from easynetwork.clients.tcp import TCPNetworkClient
     from easynetwork.protocol import StreamProtocol
@@ -170,7 +227,7 @@ def scenario_stress(nthreads: int, npkts: int, udp: bool = False) -> dict[str, A
 
 def run(chk: Check) -> None:
     quick = chk.tier == "quick"
-    rec = [scenario_lock_timeout()]
+    rec = [scenario_lock_timeout(), scenario_accessor()]
     for i in range(2 if quick else 10):
         rec.append(scenario_stress(4 if quick else 8, 6 if quick else 20))
     slim = [{"nchunks": t["nchunks"], "wire": t["wire"], "cancelled": t["cancelled"], "expected": t["expected"], "events": []} for t in rec]
